@@ -523,6 +523,18 @@ def chk_sync_key(F, E, body, s):
     return from_sorted(body, key)
 
 
+def chk_cursor_slice(F, E, body, s):
+    """`bytes[self.index..]`: the slice starts at the tokenizer's cursor (INV-CURSOR: index <= len is C13's obligation)"""
+    c = s.call
+    if len(c.args) < 2:
+        return False
+    r = strip_expr(body.expr(c.args[1], depth=20))
+    if r[0] != "agg" or not str(r[1]).endswith("RangeFrom") or len(r[3]) != 1:
+        return False
+    x = strip_expr(r[3][0])
+    return x[0] == "place" and bool(x[2]) and x[2][-1][1] == "index" and x[2][-1][0].endswith("tokenizer::Tokenizer")
+
+
 R = {}
 
 
@@ -594,7 +606,8 @@ row(P + "line_number_parser::parse_line_number|index|index|of:arg0", "INV-CHARBO
     "or a counted run of ASCII digits further", chk_line_number_slices)
 # ---- tokenizer (cursor invariants are C13's obligations)
 T = P + "tokenizer::Tokenizer::"
-row(T + "remaining_bytes|index|index|of:bytes", "INV-CURSOR", "index <= len: the cursor only advances over bytes that were read")
+row(T + "remaining_bytes|index|index|of:bytes", "INV-CURSOR", "index <= len: the cursor only advances over bytes that were read",
+    chk_cursor_slice)
 row(T + "chomp_data|index|index|of:as_bytes", "INV-CURSOR", "index <= len")
 row(T + "chomp_string|index|index|of:as_bytes", "INV-CURSOR", "index <= len")
 row(T + "chomp_data|unwrap|unwrap|of:from_utf8", "INV-CHARBOUNDARY", "the cursor sits after the ASCII keyword DATA: a char boundary of valid UTF-8")
@@ -654,8 +667,21 @@ def chk_analyzer_numbered(F, E, body, s):
     run = F.bodies[next(iter(drivers))]
     news = run.calls_to("StatementAnalyzer::new")
     rf = run.calls_to("Program::run_from_first_numbered_line")
-    if not news or not rf or not all(run.dominates(rf[0].bb, n.bb) for n in news):
+    if not news:
         return False
+    if rf:
+        if not all(run.dominates(rf[0].bb, n.bb) for n in news):
+            return False
+    else:
+        # the statement loop sits in a helper (`analyze_current_line`): each caller positions the program with
+        # run_from_first_numbered_line before it calls the helper
+        outer = [(cb, c) for cb in F.bodies.values() for c in cb.calls() if c.callee == run.path]
+        if not outer:
+            return False
+        for (cb, c) in outer:
+            rf2 = cb.calls_to("Program::run_from_first_numbered_line")
+            if "source_file_analyzer::SourceFileAnalyzer::" not in cb.path or not rf2 or not cb.dominates(rf2[0].bb, c.bb):
+                return False
     ht = run.calls_to("Program::has_next_token")
     if not any(run.dominates(h.bb, n.bb) for h in ht for n in news):
         return False
